@@ -61,7 +61,7 @@ def main():
         nl = 3 if T == "quick" else 10
         for li in range(nl):
             top = os.path.join(base_tmp, "L%d" % li)
-            rootname = rng.choice(["data", "d", "srv.d"])
+            rootname = rng.choice(["data", "d", "srv.d"]) if li != 1 else "catalog.xml"    # (a data directory may have any name)
             root = os.path.join(top, rootname)
             entries = {}      # relative to top: name -> content or None (dir)
             entries[rootname] = None
@@ -125,7 +125,11 @@ def main():
                      # directories whose names are glob patterns matching a sibling: listings, catalogs and files of both
                      "/run%5B1%5D/", "/run%5B1%5D/catalog.xml", "/run%5B1%5D", "/run1/", "/run1/catalog.xml", "/wh%3Ft/", "/wh%3Ft/catalog.xml",
                      "/what/", "/what/catalog.xml", "/run%5B1%5D/in_brackets.txt", "/run1/in_plain.txt", "/wh%3Ft/q.txt", "/what/w.txt",
-                     "/run%5B1%5D/in_plain.txt", "/wh%3Ft/w.txt", "/1st/", "/a.b/", "/sub/", "/sub/deep/", "/sub/deep/catalog.xml"]
+                     "/run%5B1%5D/in_plain.txt", "/wh%3Ft/w.txt", "/1st/", "/a.b/", "/sub/", "/sub/deep/", "/sub/deep/catalog.xml",
+                     # segments that contain the catalog's name without being it
+                     "/.catalog.xml./catalog.xml", "/.catalog.xml./%s2/catalog.xml" % rootname, "/.catalog.xml./other/catalog.xml",
+                     "/sub/.catalog.xml./.catalog.xml./catalog.xml", "/.catalog.xml./", "/sub/.catalog.xml./catalog.xml",
+                     "/catalog.xmlcatalog.xml", "/xcatalog.xml/catalog.xml", "/.catalog.xml.", "/%2Ecatalog.xml%2E/catalog.xml"]
             app = DapServer(root)
             root_comps = [c for c in root.split("/") if c]
             fs_list = []
@@ -269,6 +273,46 @@ def main():
                         break
         except OSError:
             pass
+        # ---- routing follows the disk, not what a long-lived server answered before: one server, requests before and after the
+        # data directory changes (file deleted, rewritten, replaced by a directory, created); every answer equals a fresh server's
+        hroot = os.path.join(base_tmp, "hist", "data")
+        os.makedirs(os.path.join(hroot, "sub"))
+
+        def put(rel, text):
+            with open(os.path.join(hroot, rel), "w") as f_:
+                f_.write(text)
+        put("t.csv", '"a","b"\n1,2\n3,4\n')
+        put("gone.csv", '"a","b"\n1,2\n')
+        put("sub/u.csv", '"k"\n5\n')
+        put("notes.txt", "CONTENT:first\n")
+        long_lived = DapServer(hroot)
+        hreqs = ["/t.csv.dds", "/gone.csv.dds", "/gone.csv.dods", "/sub/u.csv.das", "/notes.txt", "/", "/sub/", "/catalog.xml", "/new.csv.dds",
+                 "/gone.csv", "/t.csv.ascii"]
+
+        def answer(server, u):
+            try:
+                res_ = Request.blank(u).get_response(server)
+                return (res_.status_int, res_.body)
+            except ExtensionNotSupportedError:
+                return ("unsupported", b"")
+            except Exception as e_:  # noqa
+                return ("raised:" + type(e_).__name__, b"")
+        stages = [lambda: None,
+                  lambda: os.remove(os.path.join(hroot, "gone.csv")),
+                  lambda: put("t.csv", '"c","d","e"\n7,8,9\n'),
+                  lambda: (put("new.csv", '"n"\n1\n'), put("notes.txt", "CONTENT:second\n")),
+                  lambda: (os.remove(os.path.join(hroot, "sub", "u.csv")), os.makedirs(os.path.join(hroot, "gone.csv")))]
+        for si, change in enumerate(stages):
+            change()
+            for u in hreqs:
+                r.count(("disk-history", si, u))
+                a_, b_ = answer(long_lived, u), answer(DapServer(hroot), u)
+                if a_[0] != b_[0] or (a_[0] == 200 and "catalog" not in u and not u.endswith("/") and a_[1] != b_[1]):
+                    direct.append({"law": "the same request is routed the same way whatever the server answered before (the disk decides)",
+                                   "root": hroot, "request": u, "after_change": si, "long_lived_server": str(a_[0]), "fresh_server": str(b_[0])})
+                if a_[0] in (403, 404, 500) and hroot.encode() in a_[1]:
+                    direct.append({"law": "a refusal discloses nothing (the body does not contain the server's file system path)",
+                                   "root": hroot, "request": u, "status": a_[0], "body": a_[1][-200:].decode("latin-1")})
         for s in ["a.b", ".bashrc", "a", "a.", "..a", "...", "a.b.c", "x.tar.gz", ".", "", "..", "a..b", ".a.b", "t.csv.dds"] + \
                 ["".join(rng.choice("ab..") for _ in range(rng.randint(0, 6))) for _ in range(200)]:
             b, e = os.path.splitext(s)
